@@ -20,13 +20,23 @@ type c04Mon struct {
 	plain  bool // only plain sentinel errors (keeps a preparatory run cheap)
 }
 
+type c04SliceErr []string
+
+func (e c04SliceErr) Error() string { return "validation failed" }
+
 // mkErr builds an error in a symbolic form and records it as the ending cause.
 func (m *c04Mon) end() error {
 	m.dead = true
 	if !m.plain {
-		m.form = vChoice("errForm", 4)
+		m.form = vChoice("errForm", 5)
 	}
 	switch m.form {
+	case 4:
+		// a custom error type that is not comparable (a slice of messages, as validators return):
+		// errors.As must still recover it
+		e := c04SliceErr{"field a", "field b"}
+		m.cause = e
+		m.exact = e
 	case 0:
 		m.cause = vNewErr()
 		m.exact = m.cause
@@ -62,8 +72,15 @@ func (m *c04Mon) finish(err error) {
 	if err == nil {
 		return
 	}
-	vAssert(errors.Is(err, m.exact), "is-the-exact-error-value-the-callback-returned")
+	if m.form != 4 { // errors.Is never matches a non-comparable target: errors.As is the way to it
+		vAssert(errors.Is(err, m.exact), "is-the-exact-error-value-the-callback-returned")
+	}
 	switch m.form {
+	case 4:
+		vCover("form-non-comparable-type")
+		var target c04SliceErr
+		ok := errors.As(err, &target)
+		vAssert(ok && len(target) == 2, "as-custom-type")
 	case 0:
 		vCover("form-sentinel")
 		vAssert(errors.Is(err, m.cause), "is-cause")
